@@ -100,6 +100,27 @@ CLAIMED = {
         "dont_delimit_trailing_values; hyphen-accepting positionals left to C01.",
         "DESIGN.md section 4, C05",
     ),
+    "C06": (
+        "proptest random search over generated default/env/conditional-default configurations x environments x spelled invocations; reference model of the origin order as oracle; shrinking",
+        "Arguments carry any mix of defaults, conditional defaults, default_missing, env values (unset/valid/empty/delimited/invalid) "
+        "and implicit flag defaults; relations are placed so that the explicit set satisfies them while default-present arguments would "
+        "not. Each argument of each level must have exactly the origin command line > env > conditional default > default > absent, "
+        "with value_source and raw values of that origin; invalid env values must fail the parse; defaults must never cause conflicts / "
+        "missing-required errors; args_present and arg_required_else_help must follow explicit presence only; the ignore_errors "
+        "recovery path must resolve sources identically.",
+        "Env is snapshotted at definition time (set under a lock for that moment); conditional defaults on default-present arguments are "
+        "not compared (definition-order dependent).",
+        "DESIGN.md section 4, C06",
+    ),
+    "C07": (
+        "proptest random search over occurrence sequences (incl. Count runs to 300 and illegal repeats) with override relations; sequential reference model as oracle; shrinking",
+        "Every action x args_override_self x self overrides x override relations between arguments x occurrence sequences interleaved "
+        "and spelled freely: the result must equal the sequential model (override removal in both directions, then the action: replace / "
+        "append with boundaries / saturating count / flag value); a repeat without permission must be ArgumentConflict naming a repeated "
+        "argument; overridden arguments are no longer command-line sourced; get_count/get_flag agree.",
+        "Overrides relate flags/options of one level; no env interplay.",
+        "DESIGN.md section 4, C07",
+    ),
     "C08": (
         "proptest random search, metamorphic oracle: two/three independently drawn spellings of one generated invocation must give equal ArgMatches (and equal the model's expectation); constructed ambiguous prefixes must never resolve; shrinking",
         "One intended invocation is spelled twice with independent choices over the listed equivalences (= / separated / attached, "
